@@ -165,6 +165,8 @@ def run(ctx):
             if not ok:
                 ctx.violation("R-C08-HANDOFF", nm, where, "%s leaves (state, counter, withheld, digest, fed) = %r, a fresh frame is %r" % (nm, got, want))
     ctx.cov.update({"cells": cells, "pattern": ["%02x" % x for x in pat]})
+    ctx.include("C14", "'a decoder that is between transmissions' includes one that was reset / finalized or has just reported a result: "
+                       "it must be in the fresh matcher state, else the automaton proved above does not start at its initial cell")
     ctx.assumptions = [ASSUMPTIONS[k] for k in ("A1", "A2")]
     ctx.explanation = (
         "The matcher partition of push_byte is analysed with a symbolic state n in [0,7] and a symbolic byte; its abstract paths are the "
